@@ -351,6 +351,19 @@ PFirstBad(s, i, b, alpha) ==
         IF k < 0 \/ k >= b THEN i - 1 ELSE PFirstBad(s, i + 1, b, alpha)
 StrFirstBad(s, b, alpha) == PFirstBad(s, 1, b, alpha)
 
+
+(* string helpers for the number grammar: remove every white-space character; fold ASCII upper case to lower case *)
+LOCAL WSChars == {" ", "\t", "\n", "\r", "\f"}
+RECURSIVE PStripWS(_, _)
+PStripWS(s, i) == IF i > Len(s) THEN "" ELSE (IF Ch(s, i) \in WSChars THEN "" ELSE Ch(s, i)) \o PStripWS(s, i + 1)
+StrStripWS(s) == PStripWS(s, 1)
+LOCAL UpperA == "ABCDEFGHIJKLMNOPQRSTUVWXYZ"
+LOCAL LowerA == "abcdefghijklmnopqrstuvwxyz"
+RECURSIVE PLower(_, _)
+PLower(s, i) == IF i > Len(s) THEN ""
+                ELSE LET k == PIndexIn(Ch(s, i), UpperA, 1) IN (IF k >= 0 THEN Ch(LowerA, k + 1) ELSE Ch(s, i)) \o PLower(s, i + 1)
+StrLower(s) == PLower(s, 1)
+
 (* n limbs of w bits of a non-negative integer, least significant first *)
 ZLimbs(a, w, n) == [i \in 1..n |-> POut(SFDiv(SFDiv(PIn(a), Mk(FALSE, PPow2(w * (i - 1))))[1],
                                               Mk(FALSE, PPow2(w)))[2])]
